@@ -203,9 +203,27 @@ def model_step(T, algo, P, rec):
     return {"coefs": [cK, cC, cM], "rhs": rhs, "x": x, "new": new, "ev": ev, "up": up}
 
 
-def maxdiff(model, impl):
-    sc = max([1.0] + [abs(float(m)) for m in model])
-    return max(abs(float(m) - i) for m, i in zip(model, impl)) / sc
+def reldiff(model, impl, scale):
+    """max |model - impl| relative to `scale` (the natural size of the quantity in THIS problem; no absolute floor,
+    so a problem scaled by 2^-60 is judged exactly like the O(1) one)."""
+    d = max(abs(float(m) - i) for m, i in zip(model, impl))
+    if d == 0.0:
+        return 0.0
+    return d / scale if scale > 0 else float("inf")
+
+
+def step_scales(algo, st, m, rec):
+    """natural magnitudes of one step: S = displacement-like size, then S/dt, S/dt^2 for velocity / acceleration
+    (round-off of the difference quotients lives on these, not on the possibly cancelling results)."""
+    dt = float(st["dt"])
+    prev = rec["prev"]
+    S = max(O.scale(prev["u"], m["x"] if algo != "euler_explicit" else []), dt * O.scale(prev["v"]))
+    if algo != "parabolic":
+        S = max(S, dt * dt * O.scale(prev["a"], m["x"] if algo == "euler_explicit" else []))
+    dv = dt * (float(st["alpha"]) if algo == "parabolic" else 1.0)
+    sv = max(S / dv, O.scale(m["new"]["v"]))
+    sa = max(S / (dt * dt), O.scale(m["new"]["a"]))
+    return {"u": max(S, O.scale(m["new"]["u"])), "v": sv, "a": sa}
 
 
 # ------------------------------------------------------------------------------------------------
@@ -267,15 +285,18 @@ def judge(ctx, T, sc, res, tag):
             ctx.obligation("corr:model:%s" % tag, False, "model evaluation failed: %s" % ex)
             continue
         tol = 1e-8 if sc.get("newton") else TOL
-        diffs = {f: maxdiff(m["new"][f], rec["new"][f]) for f in ("u", "v", "a")}
+        ss = step_scales(algo, st, m, rec)
+        diffs = {f: reldiff(m["new"][f], rec["new"][f], ss[f]) for f in ("u", "v", "a")}
         if not sc.get("newton"):
-            diffs["rhs"] = maxdiff(m["rhs"], rec["rhs"])
-            diffs["coefs"] = maxdiff(m["coefs"], rec["coefs"])
-            for nm, me, ie in zip(("u_t", "v_t", "a_t"), m["ev"], rec["ev"]):
+            Anorm = max(abs(float(c)) * max(abs(x) for row in rec[k] for x in row) for c, k in zip(m["coefs"], ("K", "C", "M")))
+            diffs["rhs"] = reldiff(m["rhs"], rec["rhs"], max(O.scale(m["rhs"], rec["bN"], rec["F"]), Anorm * ss["u"] if algo != "euler_explicit" else
+                                                           Anorm * ss["a"] + O.scale(O.matvec(rec["K"], rec["prev"]["u"]), O.matvec(rec["C"], rec["prev"]["v"]))))
+            diffs["coefs"] = reldiff(m["coefs"], rec["coefs"], O.scale(m["coefs"]))
+            for nm, f, me, ie in zip(("u_t", "v_t", "a_t"), ("u", "v", "a"), m["ev"], rec["ev"]):
                 if (me is None) != (ie is None):
                     diffs[nm] = float("inf")
                 elif me is not None:
-                    diffs[nm] = maxdiff(me, ie)
+                    diffs[nm] = reldiff(me, ie, ss[f])
         ctx.cov["max_rel_diff"] = max(ctx.cov.get("max_rel_diff", 0.0), max(diffs.values()))
         worst = max(diffs, key=diffs.get)
         if diffs[worst] > tol:
@@ -371,7 +392,7 @@ def correspondence(ctx, T):
     for (tag, sc), r in zip(scs, res):
         judge(ctx, T, sc, r, tag)
     ctx.cov["corr_scenarios"] = len(scs)
-    ctx.cov["corr_tolerance"] = "1e-9 relative (1e-8 on the Newton path), exact Fractions on the model side"
+    ctx.cov["corr_tolerance"] = "1e-9 relative to the step's own magnitudes, no absolute floor (1e-8 on the Newton path); exact Fractions on the model side; scaled twins 1e-12"
     # documented precondition: EasyFEA starts from a0 = 0; average-acceleration Newmark then changes the energy in
     # the first step only (the theorem needs dynamic equilibrium, which holds after every step)
     sq = dict(energy_scenarios(ctx.rng, "quick")[0])
@@ -385,8 +406,8 @@ def correspondence(ctx, T):
         ctx.cov["newmark_from_a0_zero"] = {"energies": E, "note": "first step starts from a0 = 0 (not in dynamic equilibrium): "
                                            "energy may change in step 1 only; steps 2.. conserve (theorem newmark_avg_conserves)"}
         drift = max(abs(E[i + 1] - E[i]) for i in range(1, len(E) - 1))
-        ctx.obligation("corr:newmark-conserves-from-second-state", drift <= 1e-9 * max(1.0, abs(E[1])), "max drift %.3e" % drift)
-        if drift > 1e-9 * max(1.0, abs(E[1])):
+        ctx.obligation("corr:newmark-conserves-from-second-state", drift <= 1e-9 * abs(E[1]), "max drift %.3e" % drift)
+        if drift > 1e-9 * abs(E[1]):
             sq["energy"] = {"from_step": 1}
             ctx.violation("impl:newmark:energy", "average-acceleration Newmark changes the energy by %.3e after the first step" % drift, replay_of(sq), True)
     ctx.cov["directed_points_per_algo"] = {a: len(directed_params(a)) for a in ALGOS}
@@ -417,7 +438,7 @@ def tree_predicates(T, algo, P, env):
     new = {"u": up[0], "v": up[1] if up[1] is not None else prev["v"], "a": up[2] if up[2] is not None else prev["a"]}
     Pf = {k: Fr(P[k]) for k in P if k != "algo"}
     Pspec = dict(Pf)   # generated definitions use the formal beta/gamma: compare with the spec at the same values
-    for name, res in update_residuals_formal(algo, Pspec, prev, new):
+    for name, res, _sc in update_residuals_formal(algo, Pspec, prev, new):
         if any(x != 0 for x in res):
             fails.append("update_rule[%s]" % name)
     sp = O.spec_points(algo, Pspec, prev, new)
